@@ -28,6 +28,9 @@ pub fn verif_dir() -> std::path::PathBuf {
 // worker side
 
 pub fn worker_main(check: &str, tier: Tier, seed: u64) {
+    // S9: the worker lives in a private scratch directory (removed at exit)
+    let scratch = crate::clock::enter_scratch_directory();
+
     crate::exec::install_panic_hook();
     if let Err(e) = crate::self_checks() {
         println!("HARNESS-ERROR {e}");
@@ -91,6 +94,10 @@ pub fn worker_main(check: &str, tier: Tier, seed: u64) {
         }
         let _ = std::io::stdout().flush();
     }
+    if let Some(dir) = scratch {
+        let _ = std::env::set_current_dir("/");
+        let _ = std::fs::remove_dir_all(dir);
+    }
 }
 
 // -------------------------------------------------------------------------------------------
@@ -131,6 +138,7 @@ impl Worker {
         let mut proc = Command::new(exe)
             .args(["worker", check, tier.name(), &seed.to_string()])
             .env(crate::w2::KINDS_ENV, crate::w2::kinds_env_value())
+            .env(crate::clock::SCRATCH_ENV, crate::clock::campaign_scratch_parent())
             .stdin(Stdio::piped())
             .stdout(Stdio::piped())
             .stderr(Stdio::null())
